@@ -7,7 +7,7 @@
 use fbh::classfile::raw::{self, Annotation, AttrInfo, Attribute, Const, ElementValue, LineNumber, LocalVar, RawClass, TargetInfo, TypeAnnotation};
 use fbh::prng::Rng;
 
-pub const KINDS: [&str; 13] = ["empty-annotations", "empty-lists", "empty-debug-tables", "flags-only", "signature-everywhere", "dup-annotations", "mixed-debug-tables", "reordered-debug-tables", "cldc-stackmap", "annotation-values", "type-annotation-values", "module-flags", "too-deep-annotation"];
+pub const KINDS: [&str; 14] = ["empty-annotations", "empty-lists", "empty-debug-tables", "flags-only", "signature-everywhere", "dup-annotations", "mixed-debug-tables", "reordered-debug-tables", "cldc-stackmap", "annotation-values", "type-annotation-values", "module-flags", "flagged-code", "too-deep-annotation"];
 
 fn utf8(c: &mut RawClass, s: &str) -> u16 {
 	for (i, e) in c.pool.iter().enumerate() {
@@ -311,6 +311,16 @@ pub fn edit(rng: &mut Rng, c: &mut RawClass, kind: &str) -> bool {
 			if at == 0 || c.methods.is_empty() { put(rng, &mut c.attributes, a); } else if at == 1 { let k = rng.below(c.methods.len()); put(rng, &mut c.methods[k].attributes, a); }
 			else if !c.fields.is_empty() { let k = rng.below(c.fields.len()); put(rng, &mut c.fields[k].attributes, a); } else { put(rng, &mut c.attributes, a); }
 			changed = true;
+		}
+		"flagged-code" => {
+			// a method that is ACC_NATIVE and/or ACC_ABSTRACT and nevertheless carries a Code attribute: the reader delivers the
+			// code whatever the flags say, so a replay has to as well (seed C17-b8: accept() skipped the code of such methods)
+			for m in c.methods.iter_mut() {
+				if has(&m.attributes, "Code") && rng.chance(1, 2) {
+					m.access |= *rng.pick(&[0x0100u16, 0x0400, 0x0500]);
+					changed = true;
+				}
+			}
 		}
 		"flags-only" => {
 			let (d, s) = (utf8(c, "Deprecated"), utf8(c, "Synthetic"));
